@@ -186,6 +186,26 @@ async fn run(cases: &str, out: &str, workdir: &str) {
             "serde" => serde_case(&mut w, &cid, &v),
             "tree" => tree_case(&mut w, &cid, &v),
             "deploy" => deploy_case(&mut w, &cid, &v, workdir).await,
+            "limit" => {
+                // a timeout limit string through the engine's own parser and conversion
+                use std::str::FromStr;
+                let s = v["s"].as_str().unwrap_or("");
+                match acts::TimeoutLimit::from_str(s) {
+                    Err(_) => writeln!(w, "case {cid}: L err").unwrap(),
+                    Ok(l) => {
+                        let text = l.to_string();
+                        let (val, unit) = text.split_at(text.len() - 1);
+                        let secs = std::panic::catch_unwind(|| l.as_secs());
+                        // the engine computes in i64: an overflow is a panic (debug) or a wrapped value (release)
+                        let exact = (l.value as i128) * match unit { "s" => 1, "m" => 60, "h" => 3600, _ => 86400 };
+                        let secs = match secs {
+                            Ok(x) if x as i128 == exact => x.to_string(),
+                            _ => "overflow".to_string(),
+                        };
+                        writeln!(w, "case {cid}: L {val} {unit} {secs}").unwrap();
+                    }
+                }
+            }
             k => writeln!(w, "case {cid}: CASE-ERROR kind {k}").unwrap(),
         }
     }
